@@ -90,6 +90,12 @@ fn server() -> lspcore::server::LanguageServer {
 /// Run one complete session (input bytes, then end of input) through the real `run()` on a
 /// current-thread tokio runtime; stdin delivers everything in one read unless `chunks` is given.
 pub fn run_inproc_chunks(chunks: &[Vec<u8>]) -> Outcome {
+    // a session that never returns (deadlock between the tasks, endless loop) is a hang of the
+    // server, reported by the watchdog with the session's input
+    let _g = crate::common::watch_limit(&crate::common::current_property(), 60, || {
+        let all: Vec<u8> = chunks.concat();
+        serde_json::json!({"session_bytes": String::from_utf8_lossy(&all[..all.len().min(20000)]), "chunks": chunks.len()}).to_string()
+    });
     vtokio::verif::set_controlled(false);
     vtokio::verif::reset();
     for c in chunks {
